@@ -289,7 +289,7 @@ func flagDiff(exp, act []ch, mask uint8) string {
 		}
 		if exp[i].f&fAny == 0 {
 			if e, a := exp[i].f&^mask, act[j].f&^mask; e != a {
-				return fmt.Sprintf("character %q (#%d of %q) should be %s, is %s", exp[i].r, i, csText(exp), flagStr(e), flagStr(a))
+				return fmt.Sprintf("character %q (#%d of %q) should be %s, is %s", exp[i].r, i, sh(csText(exp)), flagStr(e), flagStr(a))
 			}
 		}
 		i++
@@ -383,6 +383,36 @@ func judge(res *kit.Result, exp []xblk, act []ablk, tablesOff bool) {
 					for units[hi] == "" {
 						hi--
 					}
+					// The text of this block may be in the document after all, overlapping the place a neighbour was
+					// given: the neighbour lost its last (first) characters and the same characters begin (end) this
+					// block ("...E" flattened away before "E r2d2"), so the placement completed the neighbour with
+					// them. Which of the two was altered cannot be told from the text: both are named.
+					p, q := -1, -1
+					for j := i - 1; j >= 0; j-- {
+						if units[j] != "" && at[j] >= 0 {
+							p = j
+							break
+						}
+					}
+					for j := i + 1; j < len(units); j++ {
+						if units[j] != "" && at[j] >= 0 {
+							q = j
+							break
+						}
+					}
+					from, to := 0, len(as)
+					if p >= 0 {
+						from = at[p] + len(units[p])
+					}
+					if q >= 0 {
+						to = at[q]
+					}
+					if p >= 0 && p < lo && strings.Contains(as[at[p]:to], units[i]) {
+						lo = p
+					}
+					if q >= 0 && q > hi && strings.Contains(as[from:at[q]+len(units[q])], units[i]) {
+						hi = q
+					}
 					where := "@" + itoa(tops[i])
 					if lo != hi {
 						where = "@" + itoa(tops[lo]) + "-" + itoa(tops[hi])
@@ -461,7 +491,7 @@ func judge(res *kit.Result, exp []xblk, act []ablk, tablesOff bool) {
 			return
 		}
 		if j >= len(act) {
-			res.Fail("C19.M2", "@%d block missing: expected %s %q, document ends after %d elements", e.top, e.kind, csText(e.cs)+e.line, len(act))
+			res.Fail("C19.M2", "@%d block missing: expected %s %q, document ends after %d elements", e.top, e.kind, sh(csText(e.cs)+e.line), len(act))
 			return
 		}
 		a := act[j]
@@ -470,14 +500,14 @@ func judge(res *kit.Result, exp []xblk, act []ablk, tablesOff bool) {
 		case "h":
 			res.Eval("C19.M3")
 			if a.kind != "h" {
-				res.Fail("C19.M3", "@%d heading %q (level %d) became a %s with style %q and text %q", e.top, csText(e.cs), e.level, a.kind, a.style, csText(a.cs))
+				res.Fail("C19.M3", "@%d heading %q (level %d) became a %s with style %q and text %q", e.top, sh(csText(e.cs)), e.level, a.kind, a.style, sh(csText(a.cs)))
 				return
 			}
 			if a.level != e.level {
-				res.Fail("C19.M3", "@%d heading %q of level %d carries style %q", e.top, csText(e.cs), e.level, a.style)
+				res.Fail("C19.M3", "@%d heading %q of level %d carries style %q", e.top, sh(csText(e.cs)), e.level, a.style)
 			}
 			if got := csText(collapse(a.cs)); got != csText(e.cs) {
-				res.Fail("C19.M3", "@%d heading text %q became %q", e.top, csText(e.cs), got)
+				res.Fail("C19.M3", "@%d heading text %q became %q", e.top, sh(csText(e.cs)), sh(got))
 				return
 			}
 			res.Eval("C19.M4")
@@ -489,7 +519,7 @@ func judge(res *kit.Result, exp []xblk, act []ablk, tablesOff bool) {
 			}
 		case "p":
 			if a.kind != "p" {
-				res.Fail("C19.M2", "@%d paragraph %q became a %s (style %q, text %q)", e.top, csText(e.cs), a.kind, a.style, csText(a.cs))
+				res.Fail("C19.M2", "@%d paragraph %q became a %s (style %q, text %q)", e.top, sh(csText(e.cs)), a.kind, a.style, sh(csText(a.cs)))
 				return
 			}
 			acs := a.cs
@@ -498,7 +528,7 @@ func judge(res *kit.Result, exp []xblk, act []ablk, tablesOff bool) {
 			}
 			acs = collapse(acs)
 			if csText(acs) != csText(e.cs) {
-				res.Fail("C19.M2", "@%d block text %q became %q", e.top, csText(e.cs), csText(a.cs))
+				res.Fail("C19.M2", "@%d block text %q became %q", e.top, sh(csText(e.cs)), sh(csText(a.cs)))
 				return
 			}
 			res.Eval("C19.M4")
@@ -508,24 +538,24 @@ func judge(res *kit.Result, exp []xblk, act []ablk, tablesOff bool) {
 		case "code":
 			res.Eval("C19.M5")
 			if a.kind != "p" {
-				res.Fail("C19.M5", "@%d code line %q became a %s (style %q)", e.top, e.line, a.kind, a.style)
+				res.Fail("C19.M5", "@%d code line %q became a %s (style %q)", e.top, sh(e.line), a.kind, a.style)
 				return
 			}
 			got := csText(a.cs)
 			got = strings.TrimSuffix(strings.TrimSuffix(got, "\n"), "\r")
 			if strings.TrimSpace(e.line) == "" {
 				if strings.TrimSpace(got) != "" {
-					res.Fail("C19.M5", "@%d blank code line became %q", e.top, got)
+					res.Fail("C19.M5", "@%d blank code line became %q", e.top, sh(got))
 					return
 				}
 			} else if got != e.line {
-				res.Fail("C19.M5", "@%d code line %q became %q", e.top, e.line, got)
+				res.Fail("C19.M5", "@%d code line %q became %q", e.top, shDiff(e.line, got), sh(got))
 				return
 			}
 		case "tbl":
 			res.Eval("C19.M6")
 			if a.kind != "tbl" {
-				res.Fail("C19.M6", "@%d table became a %s (style %q, text %q)", e.top, a.kind, a.style, csText(a.cs))
+				res.Fail("C19.M6", "@%d table became a %s (style %q, text %q)", e.top, a.kind, a.style, sh(csText(a.cs)))
 				return
 			}
 			t := e.tbl
@@ -543,7 +573,7 @@ func judge(res *kit.Result, exp []xblk, act []ablk, tablesOff bool) {
 				for c := range t.cells[r] {
 					ec, ac := t.cells[r][c], collapse(a.rows[r][c].cs)
 					if csText(ec) != csText(ac) {
-						res.Fail("C19.M6", "@%d cell (%d,%d) text %q became %q", e.top, r, c, csText(ec), csText(ac))
+						res.Fail("C19.M6", "@%d cell (%d,%d) text %q became %q", e.top, r, c, sh(csText(ec)), sh(csText(ac)))
 						continue
 					}
 					if normAlign(a.rows[r][c].jc) != normAlign(t.aligns[c]) {
@@ -568,9 +598,36 @@ func judge(res *kit.Result, exp []xblk, act []ablk, tablesOff bool) {
 		if len(exp) > 0 {
 			top = exp[len(exp)-1].top
 		}
-		res.Fail("C19.M2", "@%d the document has an extra %s element %q after the last expected block", top, act[j].kind, csText(act[j].cs))
+		res.Fail("C19.M2", "@%d the document has an extra %s element %q after the last expected block", top, act[j].kind, sh(csText(act[j].cs)))
 		return
 	}
+}
+
+// sh shortens a text for a failure message (a long line or paragraph is shown by its first 200 bytes and its length)
+func sh(s string) string {
+	if len(s) <= 200 {
+		return s
+	}
+	return strings.ToValidUTF8(s[:200], "") + "…(" + itoa(len(s)) + " bytes)"
+}
+
+// shDiff: the expected line, shortened; a long one is shown around the first byte that differs from got
+func shDiff(exp, got string) string {
+	if len(exp) <= 200 {
+		return exp
+	}
+	i := 0
+	for i < len(exp) && i < len(got) && exp[i] == got[i] {
+		i++
+	}
+	if i < 100 {
+		return sh(exp)
+	}
+	end := i + 100
+	if end > len(exp) {
+		end = len(exp)
+	}
+	return "…" + strings.ToValidUTF8(exp[i-100:end], "") + "…(" + itoa(len(exp)) + " bytes, first difference at byte " + itoa(i) + ")"
 }
 
 // missingFlags: every flag the reference demands must be present (used where extra bold/italic may come from a style).
@@ -587,7 +644,7 @@ func missingFlags(exp, act []ch) string {
 			return ""
 		}
 		if exp[i].f&fAny == 0 && exp[i].f&^act[j].f != 0 {
-			return fmt.Sprintf("character %q (#%d of %q) should be %s, is %s", exp[i].r, i, csText(exp), flagStr(exp[i].f), flagStr(act[j].f))
+			return fmt.Sprintf("character %q (#%d of %q) should be %s, is %s", exp[i].r, i, sh(csText(exp)), flagStr(exp[i].f), flagStr(act[j].f))
 		}
 		i++
 		j++
